@@ -26,6 +26,11 @@ ROOT = Path(__file__).resolve().parent.parent
 REPO = "/repo"
 
 
+def equivalents(prop: str) -> dict[str, str]:
+    p = ROOT / "review" / "wb" / prop / "equivalent.json"
+    return json.loads(p.read_text()) if p.exists() else {}
+
+
 def run_one(prop: str, diff: Path) -> str:
     wt = Path(f"/tmp/wb-run-{prop}-{diff.stem}-{os.getpid()}")
     try:
@@ -44,9 +49,9 @@ def run_one(prop: str, diff: Path) -> str:
         out = r.stdout + r.stderr
         viol = [l for l in out.splitlines() if l.startswith("VIOLATION")]
         concrete = [v for v in viol if not v.rstrip().endswith("no-failing-input-found")]
-        harmless = diff.name.startswith("r")
+        harmless = diff.name.startswith("r") or diff.name in equivalents(prop)   # judged equivalent: see equivalent.json
         if r.returncode == 0:
-            return "quiet" if harmless else "MISSED (rc=0)"
+            return ("quiet" + (" (equivalent mutant)" if diff.name.startswith("m") else "")) if harmless else "MISSED (rc=0)"
         if r.returncode == 1 and concrete:
             return ("FALSE-ALARM " if harmless else "caught ") + concrete[0].replace("replay=replays/", "replay=")
         if r.returncode == 1 and viol:
